@@ -3,6 +3,7 @@ package main
 // C07 (seal then unseal is lossless) and the constructor half of C10, against Token.tla.
 
 import (
+	"bytes"
 	"encoding/json"
 	"fmt"
 	"math"
@@ -69,15 +70,25 @@ func valueOfClass(c string, pick int) any {
 	case "floatint":
 		return pickOf(2.0, float32(1), -3.0, 1e15)
 	case "string":
-		return pickOf("héllo wörld 日本", "", "a\"b\\c\n", strings.Repeat("x", 300))
+		// incl. the lengths at which the CBOR head of a string changes size (23/24, 255/256, 65535/65536) and text
+		// that is not valid UTF-8
+		return pickOf("héllo wörld 日本", "", "a\"b\\c\n", strings.Repeat("x", 300), strings.Repeat("y", 23), strings.Repeat("y", 24), strings.Repeat("z", 255),
+			strings.Repeat("z", 256), strings.Repeat("w", 511), strings.Repeat("w", 512), strings.Repeat("v", 65535), strings.Repeat("v", 65536))
+	case "badutf8":
+		return pickOf("caf\xe9", "\xff\xfe", "a\xc3", "\xed\xa0\x80")
 	case "bytes":
-		return pickOf([]byte{0, 1, 2, 255}, []byte{}, []byte(strings.Repeat("\x00", 70)))
+		return pickOf([]byte{0, 1, 2, 255}, []byte{}, []byte(strings.Repeat("\x00", 70)), bytes.Repeat([]byte{7}, 23), bytes.Repeat([]byte{7}, 24), bytes.Repeat([]byte{8}, 255),
+			bytes.Repeat([]byte{8}, 256), bytes.Repeat([]byte{9}, 512), bytes.Repeat([]byte{9}, 65536))
 	case "link":
 		return missingCid(40 + pick%3)
 	case "list":
-		return pickOf([]any{1, "a", true}, []string{"x", "y"}, []int{}, []float64{0.5, 1.5})
+		return pickOf([]any{1, "a", true}, []string{"x", "y"}, []int{}, []float64{0.5, 1.5}, make([]int, 23), make([]int, 24), make([]int, 256), make([]int, 70000))
 	case "map":
-		return pickOf(map[string]any{"a": 1, "b": "two"}, map[string]string{}, map[string][]int{"l": {1, 2}})
+		big := map[string]int{}
+		for i := 0; i < 300; i++ {
+			big[fmt.Sprintf("key-%03d", i)] = i
+		}
+		return pickOf(map[string]any{"a": 1, "b": "two"}, map[string]string{}, map[string][]int{"l": {1, 2}}, big, map[string]any{"": 1, "é": 2, "a b": 3, "K": 4, "k": 5})
 	case "nested":
 		return pickOf(map[string]any{"m": map[string]any{"l": []any{1, map[string]any{"z": "bytes-not-supported-when-nested"}}}, "f": 2.5},
 			[]any{[]any{[]any{}}, map[string]any{"k": []any{"deep", 1.25}}})
@@ -113,8 +124,12 @@ func buildToken(c *tokCase, iss *principal, w *world, pick int) (b *built, err e
 			b, err = nil, fmt.Errorf("constructor panic: %v", r)
 		}
 	}()
-	P, _ := w.principal("P")
-	S, _ := w.principal("S")
+	// the other principals of the token rotate over every key algorithm (their DIDs must parse back too)
+	palgs := []string{"ed25519", "secp256k1", "p256", "p384", "p521", "rsa"}
+	w.algs = []string{palgs[pick%6]}
+	P, _ := w.principal("P-" + palgs[pick%6])
+	w.algs = []string{palgs[(pick/6+1)%6]}
+	S, _ := w.principal("S-" + palgs[(pick/6+1)%6])
 	issDID, audDID, subDID := iss.id, P.id, S.id
 	undef := func(f string) bool { return c.Spec.F == f && c.Spec.C == "undef" }
 	if undef("iss") {
@@ -365,6 +380,8 @@ func tokenReplay(prop string) replayFn {
 				known = "DagJsonIntegralFloat"
 			} else if c.Spec.C == "null" && (c.Spec.F == "args" || c.Spec.F == "meta") {
 				known = "NullTopLevelValue"
+			} else if c.Codec == "dagjson" && c.Spec.C == "badutf8" {
+				known = "DagJsonInvalidUtf8"
 			}
 			fail := func(expect, actual any, note string) {
 				if known != "" {
